@@ -15,24 +15,22 @@ def feed(path, label):
         name, prop, rc, nv, t = m.group(1), m.group(2), int(m.group(3)), int(m.group(4)), int(m.group(5))
         out = "/verif/work_seed/out/%s__%s.out" % (name, prop)
         first = ""
-        if os.path.exists(out) and label != "checks as first built (v1)":
+        if os.path.exists(out) and label == "v3":
             for ll in open(out):
                 if ll.startswith("  what:"):
                     first = ll.strip()[6:300]
                     break
         verdict = "caught" if rc == 1 and nv > 0 else ("missed" if rc == 0 else "no verdict (exit %d)" % rc)
         res.setdefault(name, {}).setdefault(label, {})[prop] = {"verdict": verdict, "violation_lines": nv, "wall_s": t, "first_violation": first}
-for path, label in [("/verif/work_seed/summary_round1_v1.txt", "checks as first built (v1)"),
-                    ("/verif/work_seed/summary.txt", "current checks"),
-                    ("/verif/work_seed/summary_cross.txt", "current checks")]:
+for path, label in [("/verif/work_seed/summary_round1_v1.txt", "v1"),
+                    ("/verif/work_seed/summary_v2.txt", "v2"),
+                    ("/verif/work_seed/summary.txt", "v3")]:
     if os.path.exists(path):
         feed(path, label)
 json.dump(res, open(rp, "w"), indent=1, sort_keys=True)
 if "--md" in sys.argv:
-    print("| change | breaks | v1 checks | current checks |")
-    print("|---|---|---|---|")
+    print("| change | breaks | v1 | v2 | v3 (committed) |")
+    print("|---|---|---|---|---|")
+    f = lambda d: ", ".join("%s: %s" % (p, d[p]["verdict"]) for p in sorted(d)) or "-"
     for name in sorted(res):
-        v1 = res[name].get("checks as first built (v1)", {})
-        cur = res[name].get("current checks", {})
-        f = lambda d: ", ".join("%s: %s" % (p, d[p]["verdict"]) for p in sorted(d)) or "-"
-        print("| %s | %s | %s | %s |" % (name, name.split("_")[0], f(v1), f(cur)))
+        print("| %s | %s | %s | %s | %s |" % (name, name.split("_")[0], f(res[name].get("v1", {})), f(res[name].get("v2", {})), f(res[name].get("v3", {}))))
